@@ -179,6 +179,19 @@ func runEffects(fns []*ssa.Function, cfg effectConfig) []effectFinding {
 			case *ssa.MapUpdate:
 				reportMapWrite(&out, fn, in, x.Map, cfg, inOnce)
 			case ssa.CallInstruction:
+				if n := callName(x.Common()); isContainerMutator(n) && len(x.Common().Args) > 0 {
+					recv := x.Common().Args[0]
+					o, g, _ := ownerOfValue(recv)
+					fv := rawFreeVarRoot(recv)
+					switch {
+					case o != nil && cfg.classify(o) == "shared":
+						out = append(out, effectFinding{fn, in, "shared-store", n + " on a container held by shared type " + o.Obj().Name()})
+					case g != nil:
+						out = append(out, effectFinding{fn, in, "global-write", n + " on package-level " + g.Name()})
+					case fv != nil && fn.Parent() != nil && cfg.setupCaptured(fn) && !inOnce:
+						out = append(out, effectFinding{fn, in, "captured-write", n + " on " + fv.Name() + ", captured when the handler was constructed (state shared by all requests)"})
+					}
+				}
 				switch callName(x.Common()) {
 				case "builtin.delete":
 					reportMapWrite(&out, fn, in, x.Common().Args[0], cfg, inOnce)
@@ -265,6 +278,8 @@ func checkEscape(out *[]effectFinding, fn *ssa.Function, in ssa.Instruction, val
 
 const effectControlSrc = `package ctl
 
+import "sync"
+
 type shared struct {
 	xs    []int
 	m     map[string]int
@@ -288,6 +303,10 @@ func okRequest(p *perreq)              { p.n = 2 }
 func makeHandler() func() {
 	cache := map[string]int{}
 	return func() { cache["k"]++ }
+}
+func makeCache() func(k string) {
+	var m sync.Map
+	return func(k string) { m.Store(k, 1) }
 }
 func makeRenderer() func(n int) *perreq {
 	r := &perreq{}
@@ -335,7 +354,7 @@ func effectControls() (fired []string, err error) {
 	want := map[string]string{
 		"writeShared": "shared-store", "mapWriteShared": "shared-map-write", "deleteShared": "shared-map-write",
 		"appendShared": "append-hazard", "escape": "escape", "globalWrite": "global-write", "globalMapWrite": "global-write",
-		"makeHandler$1": "captured-write", "makeRenderer$1": "captured-write",
+		"makeHandler$1": "captured-write", "makeRenderer$1": "captured-write", "makeCache$1": "captured-write",
 	}
 	for fn, kind := range want {
 		ok := false
@@ -382,4 +401,19 @@ func rawFreeVarRoot(a ssa.Value) *ssa.FreeVar {
 		}
 	}
 	return nil
+}
+
+// isContainerMutator: methods of standard containers that modify the receiver.
+func isContainerMutator(name string) bool {
+	switch name {
+	case "(*sync.Map).Store", "(*sync.Map).LoadOrStore", "(*sync.Map).Delete", "(*sync.Map).LoadAndDelete", "(*sync.Map).Swap", "(*sync.Map).CompareAndSwap", "(*sync.Map).CompareAndDelete", "(*sync.Map).Range",
+		"(*sync.Pool).Put", "(*sync.Pool).Get",
+		"(*sync/atomic.Value).Store", "(*sync/atomic.Value).Swap", "(*sync/atomic.Value).CompareAndSwap",
+		"(*container/list.List).PushBack", "(*container/list.List).PushFront", "(*container/list.List).Remove", "(*container/list.List).MoveToFront":
+		return true
+	}
+	if strings.HasPrefix(name, "(*sync/atomic.") && (strings.HasSuffix(name, ").Store") || strings.HasSuffix(name, ").Add") || strings.HasSuffix(name, ").Swap") || strings.HasSuffix(name, ").CompareAndSwap")) {
+		return true
+	}
+	return false
 }
